@@ -94,9 +94,9 @@ Definition set_aof (s : server) (a : list (list frame)) : server :=
   {| s_dbs := s_dbs s; s_trk := s_trk s; s_conns := s_conns s; s_password := s_password s; s_aof := a;
      s_pubsub := s_pubsub s |}.
 
-(** the database EVALSHA runs its script in: handle_evalsha_command calls
-    commands::lua::handle_eval, which is handle_eval_with_db(.., 0) *)
-Definition evalsha_db (selected : Z) : Z := 0.
+(** the database EVALSHA runs its script in: the one the connection has selected
+    (handle_evalsha_command(parts, db), after the repair f97685e) *)
+Definition evalsha_db (selected : Z) : Z := selected.
 
 (** handle_evalsha_command *)
 Definition h_evalsha (t : Z) (s : server) (c : Z) (dbi : Z) (ca : cache) (parts : list frame) : frame * server :=
